@@ -6,7 +6,9 @@ module machinery, get_descriptive_data; poll threads not started).
 
   nodes    = generated module classes G (vf/genmods_node.py) x valid configurations (plain; datatype properties, unit,
              start values, constants, module properties given in the cfg; a module with export=False next to it)
-             + shipped configuration files that load without hardware (through frappy.config.load_config)
+             + shipped configuration files that load without hardware (through frappy.config.load_config);
+             G includes the convenience kinds of frappy.extparams (StructParam, FloatEnumParam; declared readonly and
+             writable, with and without access methods) - their reference readonly flag is the class declaration
   per node : D1 describe twice (and once more after all probing): strict JSON (allow_nan=False), identical
              D2 listed modules / accessibles == reference (G: computed from the shape and the cfg by the SECoP wire-name
                 rule; shipped: every described name is addressable, every attribute name that is not described is not)
@@ -421,7 +423,9 @@ def gen_reference(spec):
                     const = rec['mode'] == 'const' or 'constant' in pcfg
                     info['readonly'] = const or rec['mode'] in ('ro', 'ro_write')
                     info['constant'] = const
-                    info['extra_checks'] = bool(rec.get('limits') or rec.get('checks'))
+                    # D3 compares plain parameters only: limits / hooks refuse valid payloads, the convenience kinds of
+                    # frappy.extparams round (FloatEnumParam) or fan a write out to member parameters (StructParam)
+                    info['extra_checks'] = bool(rec.get('limits') or rec.get('checks') or rec.get('xkind'))
                 accs[attr] = info
         base = shape['base']
         out[modname] = {'exported': exported, 'accessibles': accs,
